@@ -246,11 +246,11 @@ fn reject_after_valid() {
 oracle_proof!(c12_reject_after_valid, 32, reject_after_valid());
 
 // ---- two lines, same time (one group) ----
-// @verif property=C12 tier=quick timeout=1500 mem=20 bounds="2 lines at time 10: timing change (short line) then inherited (full line, all numeric fields symbolic)"
+// @verif property=C12 tier=thorough timeout=3400 mem=40 bounds="2 lines at time 10: timing change (short line) then inherited (full line, all numeric fields symbolic)"
 oracle_proof!(c12_two_same_ti, 32, two_lines(10.0, Shape::Short, "10,$b", 10.0, Shape::FullInherited, "10,$h,$i,$j,$k,$l,0,$m"));
-// @verif property=C12 tier=quick timeout=1500 mem=20 bounds="2 lines at time 10: inherited (full line) then timing change (short line)"
+// @verif property=C12 tier=thorough timeout=3400 mem=40 bounds="2 lines at time 10: inherited (full line) then timing change (short line)"
 oracle_proof!(c12_two_same_it, 32, two_lines(10.0, Shape::FullInherited, "10,$b,$c,$d,$e,$f,0,$g", 10.0, Shape::Short, "10,$h"));
-// (two FULL lines of different kind at one time run out of memory at 20 GB in the quick tier)
+// (two lines of DIFFERENT kind at one time run out of memory at 20 GB: thorough tier only, 40 GB)
 // @verif property=C12 tier=thorough timeout=3400 mem=44 bounds="2 full lines at time 10: timing change then inherited"
 oracle_proof!(c12_two_same_ti_full, 32, two_lines(10.0, Shape::FullTiming, "10,$b,$c,$d,$e,$f,1,$g", 10.0, Shape::FullInherited, "10,$h,$i,$j,$k,$l,0,$m"));
 // @verif property=C12 tier=quick timeout=1500 mem=20 bounds="2 lines at time 0: timing change then timing change (first wins)"
